@@ -93,6 +93,9 @@ def cfg_line(r, ndev=None, mode=None, cold=None, hb=None, extra=''):
         s += ' fp1=65300,120000'
     if r.random() < 0.3:
         s += ' tx0=129029,127489 rx0=127250,129026'
+    if r.random() < 0.1 and ' tx0=' not in s:
+        # long application lists: the PGN list answers (126464) are cut at 74 entries = 223 bytes
+        s += ' tx0=%s rx0=%s' % (','.join(str(127000 + j) for j in range(r.choice([63, 64, 65, 90]))), ','.join(str(128000 + j) for j in range(r.choice([66, 67, 68, 85]))))
     if r.random() < 0.15:
         s += ' early=1'          # Open() before the configuration calls (effective for opened starts only)
     return s + extra, ndev, src0, mode
